@@ -17,6 +17,11 @@ oracle     independent of the model: the physical signature of the real grid - p
            an optional data-file write/read (by name, to the precision of the file format); MINC: per
            original block the continua volumes are V*f_k/sum(f), add up to V, are chained
            fracture -> matrix 1 -> ... with the returned indices; embed: total volume conserved.
+sequence   (oracle only, hidden state) families of models handled one after another in one process with arguments
+           left to their defaults (minc() without blocks, reorder() / rename_blocks() with no or leading arguments
+           only): small model first, then larger ones with the same naming, atmosphere types changing; every grid
+           judged on its own (physical signature; MINC chains walked through the connections, V*f_k/sum(f), counts);
+           an exception counts only if the same model alone in a fresh process does not raise it.
 """
 import json, time, itertools, hashlib, io, contextlib, os
 from fractions import Fraction
@@ -389,6 +394,304 @@ def embed_histories(ctx, n):
     return out
 
 
+# ------------------------------------------------------------------ sequences (hidden state)
+#
+# A sequence is a family of models handled one after another in ONE process, the way a script preparing several
+# dual-porosity models does: for each model a fresh geometry + fromgeo grid, then a few public calls written the way
+# users write them - arguments left to their defaults (minc() without `blocks`, reorder() / rename_blocks() without or
+# with only the leading arguments).  Every call is judged on its own grid with the independent oracle (physical
+# signature for reorder / rename; per-block continuum chains, normalised fractions and counts for MINC), so the
+# expected result never depends on what was done to another object earlier in the process.
+#
+#   case = {'seq': [{'geo': recipe, 'calls': [call, ...]}, ...]}
+#   call = ['minc', fractions, spacing | None, planes | None, 'omit' | 'empty' | 'none' | [names]]
+#              spacing None: minc(fractions) only; 'omit': no blocks argument; 'empty': blocks=[]; 'none': blocks=None
+#        | ['reorder', block_names | None, connection_names | None]    (None: argument not passed)
+#        | ['reorder_geo']                                             reorder(geo=geo)
+#        | ['rename_blocks', pairs | None, fix | None]                 (None: argument not passed)
+
+def seq_apply(g, geo, call):
+    """one call on the real grid, arguments passed exactly as recorded; returns (exception class or None, return value)"""
+    k = call[0]
+    try:
+        with contextlib.redirect_stdout(io.StringIO()):
+            if k == 'minc':
+                args = [list(call[1])]
+                if call[2] is not None:
+                    args.append(call[2])
+                    if call[3] is not None:
+                        args.append(call[3])
+                kw = {}
+                if call[4] == 'empty': kw['blocks'] = []
+                elif call[4] == 'none': kw['blocks'] = None
+                elif call[4] != 'omit': kw['blocks'] = list(call[4])
+                idx = g.minc(*args, **kw)
+                return None, [[int(v) for v in idx[:, j]] for j in range(idx.shape[1])]
+            if k == 'reorder':
+                bs = list(call[1]) if call[1] is not None else None
+                cs = [tuple(c) for c in call[2]] if call[2] is not None else None
+                if bs is None and cs is None: g.reorder()
+                elif cs is None: g.reorder(bs)
+                elif bs is None: g.reorder(connection_names=cs)
+                else: g.reorder(bs, cs)
+                return None, None
+            if k == 'reorder_geo':
+                g.reorder(geo=geo)
+                return None, None
+            if k == 'rename_blocks':
+                if call[1] is None: g.rename_blocks()
+                elif call[2] is None: g.rename_blocks(dict((a, b) for a, b in call[1]))
+                else: g.rename_blocks(dict((a, b) for a, b in call[1]), bool(call[2]))
+                return None, None
+    except (KeyError, ValueError, IndexError, TypeError, ZeroDivisionError, AttributeError) as e:
+        return type(e).__name__, None
+    except Exception as e:
+        if type(e) is not Exception:
+            raise
+        return 'Exception', None
+    raise RuntimeError('unknown sequence call %r' % (call,))
+
+
+def minc_chain_oracle(orig, ncon0, g, fractions, selected):
+    """MINC judged from the grid alone (no use of the returned indices).  orig: [(block object, name, volume)] before
+    the call, ncon0: number of connections before, selected: the names MINC was asked for."""
+    fr = [Fraction(float(v)) for v in fractions]
+    S, L = sum(fr), len(fr)
+    orig_ids = set(id(b) for b, nm, v in orig)
+    nbrs = {}
+    for c in g.connectionlist:
+        b0, b1 = c.block
+        nbrs.setdefault(id(b0), []).append(b1)
+        nbrs.setdefault(id(b1), []).append(b0)
+    inlist = set(id(b) for b in g.blocklist)
+    seen, processed = set(), 0
+    sel = set(selected)
+    for b, nm, v in orig:
+        if id(b) not in inlist:
+            return 'minc-block-lost', 'original block %r is no longer in the grid' % nm
+        V = G.frac(v)
+        chain, cur = [b], b
+        while True:
+            nxt = [x for x in nbrs.get(id(cur), []) if id(x) not in orig_ids and all(x is not y for y in chain)]
+            if not nxt:
+                break
+            if len(nxt) > 1:
+                return 'minc-chain', 'block %r: continuum %d is connected to %d further new blocks' % (nm, len(chain) - 1, len(nxt))
+            cur = nxt[0]
+            chain.append(cur)
+        seen.update(id(x) for x in chain[1:])
+        want_split = nm in sel and 0 < V < G.frac(G.ATMOS_VOLUME)
+        processed += want_split
+        want = [V * f / S for f in fr] if want_split else [V]
+        vols = [G.frac(x.volume) for x in chain]
+        if len(vols) != len(want):
+            return 'minc-continua-count', 'block %r (volume %r, %s) has %d continua with volumes %r, expected %d: %r (fractions %r)' % (
+                nm, float(V), 'selected' if nm in sel else 'not selected', len(vols), [float(x) for x in vols], len(want), [float(x) for x in want], [float(f) for f in fr])
+        if not near(sum(vols), V, REL_ARITH):
+            return 'minc-total-volume', 'continua of %r add up to %r, original volume %r' % (nm, float(sum(vols)), float(V))
+        for k, (a, w) in enumerate(zip(vols, want)):
+            if not near(a, w, REL_ARITH):
+                return 'minc-volume-fraction', 'block %r continuum %d has volume %r, expected V*f_k/sum(f) = %r (fractions %r)' % (nm, k, float(a), float(w), [float(f) for f in fr])
+    extra = [x.name for x in g.blocklist if id(x) not in orig_ids and id(x) not in seen]
+    if extra:
+        return 'minc-chain', 'new blocks not chained to any original block: %r' % extra[:5]
+    if len(g.blocklist) != len(orig) + processed * (L - 1) or len(g.connectionlist) != ncon0 + processed * (L - 1):
+        return 'minc-counts', '%d blocks / %d connections after MINC of %d blocks with %d fractions, before %d / %d' % (
+            len(g.blocklist), len(g.connectionlist), processed, L, len(orig), ncon0)
+    return None
+
+
+def seq_fresh_replay(ctx, case):
+    """re-run a sequence case in a fresh process (check.py --replay): True = violated there, False = holds there"""
+    import subprocess, sys
+    p = ctx.tmp / ('c09_seq_%d.json' % int(time.time() * 1e6))
+    p.write_text(json.dumps({'case': case}))
+    env = dict(os.environ, PYTHONWARNINGS='ignore')
+    c = subprocess.run([sys.executable, str(os.path.join(os.path.dirname(os.path.abspath(core.__file__)), 'check.py')), ID, '--replay', str(p)],
+                       stdout=subprocess.PIPE, stderr=subprocess.STDOUT, text=True, timeout=600, env=env)
+    os.remove(str(p))
+    if c.returncode not in (0, 1):
+        raise RuntimeError('fresh-process replay failed (exit %d): %s' % (c.returncode, c.stdout[-600:]))
+    return c.returncode == 1
+
+
+def seq_run(ctx, models, res=None, draw=None, info=None):
+    """run a sequence on the real code in this process and judge every call; with `draw` the calls of model i are
+    drawn from the live grid (draw(i, g, geo, k) -> call or None) and recorded in models[i]['calls']"""
+    viol = []
+    for i, m in enumerate(models):
+        geo = G.make_geo(m['geo'])
+        with contextlib.redirect_stdout(io.StringIO()):
+            g = G.T().t2grid().fromgeo(geo)
+        calls = m['calls']
+        k = 0
+        while True:
+            if draw is not None:
+                call = draw(i, g, geo, k)
+                if call is None: break
+                calls.append(call)
+            elif k >= len(calls):
+                break
+            call = calls[k]
+            case = {'seq': [dict(x) for x in models[:i]] + [{'geo': m['geo'], 'calls': calls[:k + 1]}]}
+            before = phys(g)
+            names = dict((id(b), b.name) for b in g.blocklist)
+            orig = [(b, b.name, b.volume) for b in g.blocklist]
+            ncon0 = len(g.connectionlist)
+            valid = True
+            if call[0] == 'reorder':
+                valid = G.classify(g, ['reorder', call[1], call[2]]) == 'ok'
+            elif call[0] == 'rename_blocks' and call[1] is not None:
+                valid = G.classify(g, ['rename_blocks', call[1], True if call[2] is None else call[2]]) == 'ok'
+            exc, ret = seq_apply(g, geo, call)
+            if info is not None: info['last_exc'] = exc
+            if res is not None:
+                res.evaluations += 1
+                res.facet('sequence')['cases'] += 1
+                res.count('seq:' + call[0] + (':blocks-' + (call[4] if isinstance(call[4], str) else 'given') if call[0] == 'minc' else ''))
+                res.count('seq:position-in-process', i)
+                if exc: res.count('seq:exc:' + exc)
+                res.distinct.add(hashlib.sha1(('seq' + json.dumps(case)).encode()).hexdigest()[:16])
+            if exc is not None:
+                # an exception is judged only as hidden state: the same calls on this model alone, in a fresh process
+                if valid and i > 0:
+                    alone = {'seq': [case['seq'][-1]], 'expect_exc': exc}
+                    if seq_fresh_replay(ctx, alone):
+                        viol.append(dict(key='seq-exception:%s' % call[0], what='%s raised %s as model %d of a sequence in one process; the same calls on this model alone in a fresh process do not' % (
+                            json.dumps(call)[:100], exc, i + 1), case=case))
+                break
+            if not valid:
+                break
+            if call[0] in ('reorder', 'reorder_geo', 'rename_blocks'):
+                d = phys_diff(before, phys(g), None, names)
+                if d:
+                    viol.append(dict(key='phys:%s:%s' % (call[0], d[0]), what='model %d of the sequence: %s changed the physical network: %s' % (i + 1, json.dumps(call)[:80], d[1]), case=case))
+                    break
+            else:
+                sel = [nm for b, nm, v in orig] if isinstance(call[4], str) else list(call[4])
+                m1 = minc_chain_oracle(orig, ncon0, g, call[1], sel)
+                if not m1 and len(ret) == len(sel):
+                    sp = 50. if call[2] is None else call[2]
+                    m1 = minc_oracle(dict((id(b), (nm, v)) for b, nm, v in orig), g, ['minc', call[1], sp, call[3] or 1, sel], ret)
+                elif not m1:
+                    m1 = ('minc-index', 'the returned index array has %d columns for %d blocks MINC was applied to' % (len(ret), len(sel)))
+                if m1:
+                    viol.append(dict(key=m1[0], what='model %d of the sequence, minc(%s): %s' % (i + 1, json.dumps(call[1:])[:100], m1[1]), case=case))
+                    break
+                w = G.oracle(g, False)
+                if w and G.oracle(g, True):
+                    viol.append(dict(key='inv:minc:%s' % w[0], what='model %d of the sequence: after minc the grid is inconsistent: %s' % (i + 1, w), case=case))
+                    break
+            k += 1
+        if viol:
+            break
+    return viol
+
+
+SEQ_DX, SEQ_DZ = [100., 120., 80., 60., 50., 37.5], [20., 30., 10., 15., 40., 12.5]
+SEQ_FRACTIONS = [[0.1, 0.3, 0.6], [5., 15., 30., 50.], [0.05, 0.2, 0.25, 0.5], [1., 2., 3., 4., 5., 6.], [0.25, 0.75], [0.1, 0.2, 0.3], [2., 1., 1.]]
+
+
+def seq_fixed():
+    """two families written by hand: a model and its refinements with the same naming, full MINC through the defaults"""
+    r = lambda nx, ny, nz, atmos, conv=0: {'dx': SEQ_DX[:nx], 'dy': [50., 60., 70.][:ny], 'dz': SEQ_DZ[:nz], 'atmos': atmos, 'convention': conv}
+    return [
+        [{'geo': r(2, 1, 2, 0), 'calls': [['minc', [0.2, 0.8], None, None, 'omit']]},
+         {'geo': r(4, 2, 3, 0), 'calls': [['minc', [5., 15., 30., 50.], 35., 2, 'omit']]},
+         {'geo': r(4, 3, 2, 2), 'calls': [['minc', [0.05, 0.2, 0.25, 0.5], 50., 3, ['  b 1', '  c 1', '  f 1', '  h 2', '  l 2']]]},
+         {'geo': r(3, 2, 4, 0), 'calls': [['reorder', None, None], ['minc', [1., 2., 3.], 45., None, 'omit'], ['rename_blocks', None, None]]}],
+        [{'geo': r(2, 1, 1, 2), 'calls': [['rename_blocks', None, None], ['minc', [0.1, 0.9], 40., 1, 'omit']]},
+         {'geo': r(3, 2, 2, 1), 'calls': [['reorder_geo'], ['minc', [1., 1., 2.], 25., 3, 'omit']]},
+         {'geo': r(5, 2, 2, 0), 'calls': [['minc', [0.1, 0.3, 0.6], 40., 1, 'empty']]},
+         {'geo': r(5, 2, 3, 2, 1), 'calls': [['minc', [0.3, 0.3, 0.3], None, None, 'none']]},
+         {'geo': r(6, 2, 3, 2, 1), 'calls': [['minc', [0.5, 0.25, 0.125, 0.125], 10., 2, 'omit']]}],
+    ]
+
+
+def seq_random(ctx, j, res):
+    """a random family: a small model first, then mostly larger ones with the same naming (their block names are a
+    superset), atmosphere type and naming convention sometimes changing; calls drawn from the live grids"""
+    rng = ctx.rng('sequence/%d' % j)
+    nmod = rng.randint(3, 5)
+    nx, ny, nz = rng.choice([(2, 1, 1), (2, 1, 2), (3, 1, 2), (2, 2, 1), (3, 2, 2)])
+    atmos, conv = rng.choice([0, 1, 2]), rng.choice([0, 0, 1, 2])
+    models = []
+    for i in range(nmod):
+        if i > 0:
+            if rng.random() < 0.75:
+                nx, ny, nz = min(nx + rng.randint(0, 2), 6), min(ny + rng.randint(0, 1), 3), min(nz + rng.randint(0, 2), 5)
+            else:
+                nx, ny, nz = rng.choice([(2, 1, 2), (3, 2, 1), (4, 2, 3), (5, 3, 2)])
+            if rng.random() < 0.35: atmos = rng.choice([0, 1, 2])
+            if rng.random() < 0.15: conv = rng.choice([0, 1, 2])
+        rec = {'dx': [rng.choice(SEQ_DX) for _ in range(nx)], 'dy': [rng.choice([50., 60., 70.]) for _ in range(ny)],
+               'dz': [rng.choice(SEQ_DZ) for _ in range(nz)], 'atmos': atmos, 'convention': conv}
+        if rng.random() < 0.25:
+            tot = sum(rec['dz'])
+            rec['surface'] = [-rng.choice([0., 0.25, 0.5]) * tot for _ in range(3)]
+        models.append({'geo': rec, 'calls': []})
+    plans = []
+    for i in range(nmod):
+        plan = []
+        for _ in range(rng.choice([0, 0, 1, 1, 2])):
+            plan.append(rng.choice(['reorder', 'reorder', 'rename', 'reorder_none', 'rename_none', 'reorder_geo']))
+        plan.append('minc')
+        if rng.random() < 0.3:
+            plan.append(rng.choice(['reorder_none', 'rename_none']))
+        plans.append(plan)
+
+    def draw(i, g, geo, k):
+        if k >= len(plans[i]):
+            return None
+        kind = plans[i][k]
+        if kind == 'reorder_none': return ['reorder', None, None]
+        if kind == 'rename_none': return ['rename_blocks', None, None]
+        if kind == 'reorder_geo':
+            return ['reorder_geo'] if sorted(b.name for b in g.blocklist) == sorted(geo.block_name_list) else ['reorder', None, None]
+        if kind in ('reorder', 'rename'):
+            for _ in range(20):
+                op = rr_op(g, rng)
+                if (op[0] == 'reorder') == (kind == 'reorder'):
+                    break
+            if op[0] == 'reorder':
+                return ['reorder', op[1], op[2] if (op[1] is None or rng.random() < 0.5) else None]
+            return ['rename_blocks', op[1], None if op[2] else False]
+        fr = list(rng.choice(SEQ_FRACTIONS))
+        sp = rng.choice([None, 50., 40., 35., 10., 200.])
+        nf = None if sp is None else rng.choice([None, 1, 2, 3])
+        u = rng.random()
+        if u < 0.7: mode = 'omit'
+        elif u < 0.8: mode = 'empty'
+        elif u < 0.85: mode = 'none'
+        else:
+            names = [b.name for b in g.blocklist]
+            mode = rng.sample(names, rng.randint(1, min(6, len(names))))
+        return ['minc', fr, sp, nf, mode]
+    return models, seq_run(ctx, models, res, draw)
+
+
+def run_sequences(ctx, res, scale=1.0):
+    done = []       # every model handled by this facet in this process so far, in order
+    fams = [(m, None) for m in seq_fixed()] + [(None, j) for j in range(max(1, int(ctx.n(6, 60) * scale)))]
+    for fixed, j in fams:
+        if fixed is not None:
+            models, viol = fixed, seq_run(ctx, fixed, res)
+        else:
+            models, viol = seq_random(ctx, j, res)
+        res.count('seq:families')
+        res.count('seq:models', len(models))
+        for v in viol:
+            # the case must fail when replayed in a fresh process; if this family alone does not, what this process
+            # did before it matters: record every model the facet has handled so far as well
+            if done and not seq_fresh_replay(ctx, v['case']):
+                v['case'] = {'seq': done + v['case']['seq']}
+        res.violations += viol
+        done += [{'geo': m['geo'], 'calls': list(m['calls'])} for m in models]
+        if viol:
+            break
+    res.facet('sequence')
+
+
 # ------------------------------------------------------------------ run / search / replay
 
 def run(ctx, scale=1.0, oracle_only=False):
@@ -433,6 +736,7 @@ def run(ctx, scale=1.0, oracle_only=False):
     for h in embed_histories(ctx, int(ctx.n(20, 300) * scale)):
         res.violations += run_phys_history(ctx, h, res)
         hists.append(h); facets.append('embed')
+    run_sequences(ctx, res, scale)
     lines = [G.model_line(h._real[0], h._real[1], 0) for h in hists]
     replies = [None] * len(lines)
     if ctx.model_ok and not oracle_only:
@@ -464,7 +768,7 @@ def run(ctx, scale=1.0, oracle_only=False):
                     break
         if facet in ('compositions', 'minc') and len(res.samples) < 6 and steps:
             res.sample({'start': h.start, 'ops': [json.dumps(s.op)[:200] for s in steps[:2]], 'n_ops': len(steps)})
-    for name in ('fixed', 'permutations', 'compositions', 'minc', 'embed'):
+    for name in ('fixed', 'permutations', 'compositions', 'minc', 'embed', 'sequence'):
         res.facet(name)
     res.exhaustive = False
     return res
@@ -488,6 +792,20 @@ def search(ctx, seconds, res):
 
 def replay(ctx, payload):
     c = payload.get('case') or {}
+    if 'seq' in c:
+        models = [{'geo': m['geo'], 'calls': [list(x) for x in m['calls']]} for m in c['seq']]
+        info = {}
+        viol = seq_run(ctx, models, None, None, info)
+        txt = 'sequence of %d models in one process (%d calls)' % (len(models), sum(len(m['calls']) for m in models))
+        if 'expect_exc' in c:
+            # helper case of the sequence facet: does the last call raise the same exception in a fresh process?
+            same = info.get('last_exc') == c['expect_exc']
+            return (not same), txt + '\nlast call raised %r, in the sequence it raised %r' % (info.get('last_exc'), c['expect_exc'])
+        if viol:
+            txt += '\n' + '\n'.join('%s: %s' % (v['key'], v['what']) for v in viol[:3])
+        else:
+            txt += '\nevery grid as required (physical signature unchanged / MINC chains, fractions and counts)'
+        return bool(viol), txt
     if 'ops' not in c:
         return False, 'replay file names what no longer checks: %s' % payload.get('broken')
     res = Result()
